@@ -39,15 +39,15 @@ def lanes(prop, quick_cfgs, thorough_cfgs, engine="e_lanes", extra=None):
 
 PLAN = {
     "C01": lanes("C01", ["sse2", "scalar", "fma", "libm"], ["coresimd", "dbg"]),
-    "C02": lanes("C02", ["sse2", "scalar", "coresimd"], ["libm", "fma"], engine="e_geom"),
+    "C02": lanes("C02", ["sse2", "scalar", "coresimd", "libm"], ["fma"], engine="e_geom"),
     "C03": lanes("C03", ["sse2", "scalar", "coresimd"], ["fma"], engine="e_geom"),
     "C04": lanes("C04", ["sse2", "scalar", "coresimd"], ["fma"], engine="e_geom"),
     "C05": lanes("C05", ["sse2", "scalar", "coresimd"], [], engine="e_geom"),
     "C06": lanes("C06", ["sse2", "scalar", "coresimd"], [], engine="e_geom"),
-    "C09": lanes("C09", ["sse2", "scalar", "coresimd"], ["libm"], engine="e_geom"),
-    "C10": lanes("C10", ["sse2", "scalar", "coresimd"], [], engine="e_geom"),
-    "C11": lanes("C11", ["sse2", "scalar", "coresimd"], [], engine="e_geom"),
-    "C12": lanes("C12", ["sse2", "scalar", "coresimd"], ["libm"], engine="e_geom"),
+    "C09": lanes("C09", ["sse2", "scalar", "coresimd", "libm", "assert"], ["assert-scalar"], engine="e_geom"),
+    "C10": lanes("C10", ["sse2", "scalar", "coresimd", "assert"], ["assert-scalar"], engine="e_geom"),
+    "C11": lanes("C11", ["sse2", "scalar", "coresimd", "assert"], ["assert-scalar"], engine="e_geom"),
+    "C12": lanes("C12", ["sse2", "scalar", "coresimd", "libm"], [], engine="e_geom"),
     "C07": {"runs": [
         {"engine": "e_api", "config": c, "mode": "trace", "tiers": t, "shards": {"quick": 1, "thorough": 1}, "args": ["--trace", "{wdir}/trace.{config}.bin"]}
         for c, t in (("sse2", Q), ("scalar", Q), ("fma", Q), ("coresimd", T), ("native", T))
@@ -96,6 +96,9 @@ PLAN = {
         {"engine": "e_api", "config": "miri-coresimd", "mode": "miri", "tiers": T, "shards": {"quick": 8, "thorough": 8}},
         {"engine": "e_api", "config": "asan-coresimd", "mode": "san", "tiers": T, "shards": {"quick": 4, "thorough": 8}},
         {"engine": "e_api", "config": "sse2", "mode": "san", "runner": "valgrind", "tiers": T, "shards": {"quick": 4, "thorough": 8}},
+        # integer clause: panic equivalence of every integer-vector operation with the primitive, release and debug profiles
+        {"engine": "e_lanes", "config": "sse2", "tiers": Q, "args": ["--tier", "quick"]},
+        {"engine": "e_lanes", "config": "dbg", "tiers": Q, "args": ["--tier", "quick"]},
     ]},
     "C13": lanes("C13", ["sse2", "dbg"], ["scalar"]),
     "C14": lanes("C14", ["sse2", "scalar"], ["coresimd"]),
@@ -112,7 +115,7 @@ RULES = {
     "C20": "Programs of 2-12 operations drawn from 46 precondition-carrying operation groups (normalize family, any_orthonormal_*, every rotation constructor, unit-quaternion product / inverse / lerp / slerp / rotate_towards, from_rotation_arc incl. exactly opposite, look_to/look_at, TRS compose -> decompose -> recompose, inverse -> transform, to_euler/from_euler, to_axis_angle/from_axis_angle, clamp_length*, reflect/refract, projection ...) for the f32 and f64 families; every operand comes from typed pools of values produced by glam itself (unit vectors, unit quaternions, rotation matrices, shear-free TRS matrices, affine matrices) or from finite non-degenerate seeds (including tiny vectors whose squared length is still normal). Monitors: no program panics in glam-assert builds; after every step every pooled value is checked against the predicate it will be used under (|len^2 - 1| <= 2e-4, affine row within 1e-6) and the margin consumed is recorded; a second vocabulary (c20v) runs the same kind of chains over each of the 7 float vector types (Vec2, Vec3, Vec3A, Vec4, DVec2, DVec3, DVec4: normalize family, clamp with partially coinciding bounds, clamp_length*, project/reject(_normalized), reflect, refract, any_ortho*, vector rotate_towards and slerp incl. exactly (anti)parallel operands, 2-D from_angle/rotate/rotate_towards) with Vec3A operands of every provenance (from Vec3, from_vec4 with 0/inf/NaN fourth lane, quotients by a w = 0 column) and checks is_finite() against the visible lanes; try_normalize/normalize_or(_zero) totality over magnitudes from below the smallest subnormal to overflow (result is the fall-back or passes is_normalized); a catalogue of ~800 documented violations - one minimal violation per glam_assert conjunct, operand and lane (single-lane min > max for all 34 vector types, one non-unit operand at x2/x0.5/x1.001/x0.999, one matrix axis, one homogeneous-row element off by 2e-6, one near/far plane) - must panic exactly when the assertions are compiled in; the same programs are traced in builds with and without glam-assert (sse2 and scalar) and every returned word compared bit-for-bit. Events = programs + compared records.",
     "C07": "Each build of the working tree (sse2, scalar-math, +fma,+avx2; core-simd and target-cpu=native in thorough) records the same seeded workload into a trace: every registry entry that involves one of the eight SIMD-backed types (524 entries: inherent functions, operators, conversions, Display/Debug) called on finite inputs, each call re-executed 8 times on inputs moved by up to 64 ulp (conditioning probe), plus random programs of 2-8 operations chained through a typed value pool. An offline comparator walks pairs of traces in lock-step: SIMD vs scalar (and core-simd): |a - b| <= (largest change under the 64-ulp perturbations) + 32 eps x (largest input scalar / output lane of the call) per float word, discrete outcomes (bool / Option / index) equal unless they flip under the perturbations (boundary), Debug/Display text hash equal whenever the values are bit-equal; sse2 vs +fma / native: every word of every record, including the chained programs, bit-for-bit (NaN sign/payload excepted: unspecified in Rust). Events = records compared; distinct = entries.",
     "C08": "Twin execution: every registry entry that takes or returns a Vec3A, Mat3A, Affine3A or BVec3A (about 870 entries incl. the 495 swizzle getters/setters of Vec3A/Vec4: own methods, operators, Sum/Product, PartialEq, Hash, Display/Debug, From impls, and functions of Quat / Mat4 / Mat3 / Affine3A taking them) is executed on arguments with bit-identical visible lanes whose hidden fourth lane holds each of {0, 1, -1, 3e38, min subnormal, +inf, -inf, quiet NaN, signalling NaN, all-ones} injected through three public routes (Vec3A::from_vec4, a computed register, From<raw register>; masks through comparisons of such vectors), on ordinary and special-value visible lanes, and in a `mixed` mode where every padded operand drawn in one call gets a different hidden content and route (so `a == b`, `a * b`, `select(m, a, b)` see operands that differ only there); all captured visible outputs (lanes, scalars, bools, Options, strings, hashes, bitmasks) must be bit-identical to the run with the natural hidden lane. Plus random programs of 2-6 such operations chained through a typed value pool so that hidden lanes computed by glam itself feed later operations. Every event is one poisoned execution; distinct = (entry, poison, route, input mode).",
-    "C18": "Events: (1) panic monitor - every entry of the generated registry (all 1530 public inherent functions, operator / Neg / Index / PartialEq / Sum / Product / Display / From impls of the float vector, quaternion, matrix, affine and SIMD mask types) called under catch_unwind with each scalar argument slot in turn set to special-value lattice values (zero, -0, subnormal, tiny, huge, +-inf, NaNs) plus random lattice tuples and ordinary values; indices in range and slices long enough, so any panic is undocumented; (2) slice monitor - from_slice / write_to_slice / from_cols_slice / write_cols_to_slice of 29 types with every length 0..N+4 on sentinel windows and exactly sized heap slices: success reads/writes exactly the first N elements, short slices panic and leave the destination bit-identical; (3) Index/IndexMut, col/row/col_mut, test/set with indices 0..7 and usize::MAX; (4) pointer-cast conversions of the SIMD types; the same workload under AddressSanitizer (exact-size heap buffers), Miri (one call of each of the SIMD-type entries plus slices) and, in thorough, valgrind memcheck on the optimised binary. distinct = distinct (entry, hot slot, round class).",
+    "C18": "Integer clause: every operator / method of the 27 integer vector types is run by the C13 lane-lift monitor in the release and the overflow-checking profile and must panic exactly when some lane's primitive panics (only the panic-equivalence verdicts are kept here). Events: (1) panic monitor - every entry of the generated registry (all 1530 public inherent functions, operator / Neg / Index / PartialEq / Sum / Product / Display / From impls of the float vector, quaternion, matrix, affine and SIMD mask types) called under catch_unwind with each scalar argument slot in turn set to special-value lattice values (zero, -0, subnormal, tiny, huge, +-inf, NaNs) plus random lattice tuples and ordinary values; indices in range and slices long enough, so any panic is undocumented; (2) slice monitor - from_slice / write_to_slice / from_cols_slice / write_cols_to_slice of 29 types with every length 0..N+4 on sentinel windows and exactly sized heap slices: success reads/writes exactly the first N elements, short slices panic and leave the destination bit-identical; (3) Index/IndexMut, col/row/col_mut, test/set with indices 0..7 and usize::MAX; (4) pointer-cast conversions of the SIMD types; the same workload under AddressSanitizer (exact-size heap buffers), Miri (one call of each of the SIMD-type entries plus slices) and, in thorough, valgrind memcheck on the optimised binary. distinct = distinct (entry, hot slot, round class).",
     "C10": "Events: scale / rotation / translation triples with |scale| in [1e-3,1e3], every sign pattern (8 in 3-D, 4 in 2-D), rotations from the structured unit-quaternion generator (all four matrix->quaternion branches), translations over 16 decades. Compose: every SRT constructor of Mat4/DMat4, Affine3A/DAffine3, Affine2/DAffine2, Mat3/Mat3A (2-D), Mat2 and the product of glam's elementary constructors vs the double-double T*R*S (8 eps |s_c| per entry, translation bit-exact). Decompose: translation = last column bit-exact, unit rotation, |scale| = column lengths, negative x scale iff det < 0, recomposition reproduces the input (32 eps |s_c|). Cells (sign pattern x branch) are tabulated; an empty cell makes the run inconclusive.",
     "C11": "Events: cameras (unit dir and up with |dir x up| >= 1.2e-3 incl. nearly parallel hints, eyes over 13 decades, look_at centres) through look_to/look_at of Mat4, Affine3A, Quat, Mat3, Mat3A and f64 forms: orthonormal, det +1, dir -> -Z (rh) / +Z (lh), up hint -> x = 0 and y > 0 (16 eps / |dir x up|), eye -> origin; every perspective_* (fov in (1e-2, pi-1e-2), aspect 1e-2..1e2, far/near from 1.001 to 1e6) and orthographic_* constructor: frustum corners, centres and interior points at several depths pushed through the stored matrix in f64 must land on the documented NDC values, clip w = -z / +z exactly; project_point3(a) = xyz/w of M*(p,1).",
     "C12": "Events: lerp end points on all finite lattice pairs (IEEE equality); move_towards (partial / reach / snap-radius boundary zones); clamp_length*, rotate_towards (2-D, 3-D: clamped request incl. negative, length, angle from start, angle to target), vector slerp (zones regular / near_parallel / near_antiparallel), any_orthogonal/orthonormal over the whole sphere incl. z = -1 and z = +-0; quaternion lerp / slerp against the exact interpolants along the shorter arc with partners at angles 1e-7.5..pi-1e-7, Quat::rotate_towards (partial / reach / 1e-4 snap boundary), from_rotation_arc(_colinear, _2d) incl. exactly opposite and equal inputs; FloatExt lerp/inverse_lerp/remap. Angle-derived tolerances: 1e-6 (f32 polynomial acos/sin) + 16 eps / sin(theta). In the two zones with recorded findings the monitor also evaluates the finding's quantitative envelope and tags anything outside it `gross`, which the known-finding entries do not match.",
